@@ -115,6 +115,9 @@ func renderScen(e *typeEnv, sc *scen, id int) (string, error) {
 			mut = "*p = 99"
 		}
 		out = fmt.Sprintf("pr%s(%d, x)\nprintln(int32(%d), int32(*p))", e.helperName(top), id, id)
+		if sc.Same && tpl.PtrEq != "" {
+			out += fmt.Sprintf("\nprintln(int32(%d), b2i(%s))", id, tpl.PtrEq)
+		}
 	} else {
 		if sc.W == 1 {
 			mut = fmt.Sprintf("%s = mk%s(70)", lv, e.helperName(pt))
@@ -222,11 +225,12 @@ func Run(c *core.Ctx, pool *gjs.Pool) {
 	c.Assumef("the Go template of a context (harness/props/c07/contexts.go) denotes the instruction sequence of the same-named context of StoreScen.tla; guarded per scenario by the reference toolchain (spec_guard_discards)")
 	c.Assumef("integer leaves are int32 or int64 (printed as int32); arrays have 2 elements, slices 2, maps 1 entry; nesting of the type under test <= 2, contexts add one more level")
 	variants := []string{"n32", "a32", "n64"}
-	num, den := 1, 16
+	// quick: half of the (shape, variant, context) triples, 1/12 of their rows; thorough: everything
+	num, den, rnum, rden := 1, 2, 1, 12
 	if c.Thorough() {
-		num, den = 1, 1
+		den, rden = 1, 1
 	}
-	params := map[string]any{"seed": c.Seed, "num": num, "den": den, "variants": variants, "out": "scen"}
+	params := map[string]any{"seed": c.Seed, "num": num, "den": den, "rnum": rnum, "rden": rden, "variants": variants, "out": "scen"}
 	pj, _ := json.Marshal(params)
 	cfg := "SPECIFICATION Spec\nINVARIANT CopyOK\nINVARIANT CtxOK\nINVARIANT Emit\nCHECK_DEADLOCK FALSE\n"
 	r, err := tlcx.Run(c, tlcx.Opts{Module: "StoreScen", Cfg: cfg, Workers: 8, Timeout: 25 * time.Minute, Files: map[string]string{"c07_params.json": string(pj)}, HeapMB: 6144})
@@ -235,8 +239,8 @@ func Run(c *core.Ctx, pool *gjs.Pool) {
 	}
 	c.Phase("tlc")
 	c.Set("checker_cmd", "tlc StoreScen (INVARIANTS CopyOK, CtxOK, Emit = RowOK + scenario emission)")
-	c.Set("exhaustive", num >= den)
-	c.Set("sampling", fmt.Sprintf("%d/%d of the (shape, variant, context) triples, chosen by VERIF_SEED inside TLC", num, den))
+	c.Set("exhaustive", num >= den && rnum >= rden)
+	c.Set("sampling", fmt.Sprintf("%d/%d of the (shape, variant, context) triples and %d/%d of the rows of each, chosen by a hash of VERIF_SEED inside TLC", num, den, rnum, rden))
 
 	files, _ := filepath.Glob(filepath.Join(r.Dir, "scen.*.ndjson"))
 	sort.Strings(files)
@@ -300,7 +304,7 @@ func Run(c *core.Ctx, pool *gjs.Pool) {
 	c.Set("rule", "TLC enumerates (type shape, rendering variant, context, mutated side, mutated leaf path or whole value) rows of StoreScen.tla and executes each on the abstract store of Store.tla; a case is one rendered scenario function with its predicted probe integers; distinct = distinct rows; non-trivial = rows whose prediction changes when the context's copy is skipped (copying contexts) or whose mutation is observed through the alias (aliasing contexts)")
 
 	// programs of bounded size
-	const maxPerProg = 300
+	maxPerProg := c.Pick(300, 600)
 	var progs []*program
 	cur := &program{}
 	for _, uk := range order {
